@@ -75,8 +75,29 @@ func (g *guardCtx) constInt(e ast.Expr) (int64, bool) {
 }
 
 // lenOf: e is `len(x)`; returns the text of x
+// unconv strips integer conversions: int(x), int64(len(a)), uint32(i) ...
+func (g *guardCtx) unconv(e ast.Expr) ast.Expr {
+	for {
+		e = unparen(e)
+		call, ok := e.(*ast.CallExpr)
+		if !ok || len(call.Args) != 1 {
+			return e
+		}
+		id, ok := call.Fun.(*ast.Ident)
+		if !ok {
+			return e
+		}
+		switch id.Name {
+		case "int", "int8", "int16", "int32", "int64", "uint", "uint8", "uint16", "uint32", "uint64":
+			e = call.Args[0]
+		default:
+			return e
+		}
+	}
+}
+
 func (g *guardCtx) lenOf(e ast.Expr) (string, bool) {
-	call, ok := unparen(e).(*ast.CallExpr)
+	call, ok := g.unconv(e).(*ast.CallExpr)
 	if !ok || len(call.Args) != 1 {
 		return "", false
 	}
@@ -153,7 +174,7 @@ func (g *guardCtx) factsOf(cond ast.Expr, truth bool) []fact {
 			}
 		}
 		if a, ok := g.lenOf(y); ok && op == token.LSS {
-			out = append(out, fact{kind: "idxLT", expr: a, idx: g.str(x)})
+			out = append(out, fact{kind: "idxLT", expr: a, idx: g.str(g.unconv(x))})
 		}
 	}
 	return out
@@ -339,6 +360,77 @@ func (g *guardCtx) lenAtLeast(a string, n int64, site ast.Node, stack []ast.Node
 	return false
 }
 
+// callersLenAtLeast: `a` is a parameter of the enclosing unexported function, and at every call of that function in
+// the library the corresponding argument is known to have at least n elements (a length check in the caller).
+func (g *guardCtx) callersLenAtLeast(a ast.Expr, n int64, stack []ast.Node) bool {
+	id, ok := unparen(a).(*ast.Ident)
+	if !ok {
+		return false
+	}
+	var fd *ast.FuncDecl
+	for _, nd := range stack {
+		if f, ok := nd.(*ast.FuncDecl); ok {
+			fd = f
+		}
+	}
+	if fd == nil || fd.Name.IsExported() {
+		return false
+	}
+	k, idx := -1, 0
+	for _, fld := range fd.Type.Params.List {
+		for _, nm := range fld.Names {
+			if g.info.ObjectOf(nm) == g.info.ObjectOf(id) && g.info.ObjectOf(id) != nil {
+				k = idx
+			}
+			idx++
+		}
+		if len(fld.Names) == 0 {
+			idx++
+		}
+	}
+	if k < 0 {
+		return false
+	}
+	// the parameter must not be re-assigned in the function
+	if g.assignsTo(fd.Body, id.Name) {
+		return false
+	}
+	obj := g.info.ObjectOf(fd.Name)
+	calls, allOK := 0, true
+	for _, p := range g.c.pkgs {
+		g2 := &guardCtx{c: g.c, info: p.TypesInfo}
+		for _, file := range p.Syntax {
+			for _, d := range file.Decls {
+				caller, ok := d.(*ast.FuncDecl)
+				if !ok || caller.Body == nil {
+					continue
+				}
+				walkStack(caller, func(nd ast.Node, st []ast.Node) {
+					call, ok := nd.(*ast.CallExpr)
+					if !ok || k >= len(call.Args) {
+						return
+					}
+					var cid *ast.Ident
+					switch f := unparen(call.Fun).(type) {
+					case *ast.Ident:
+						cid = f
+					case *ast.SelectorExpr:
+						cid = f.Sel
+					}
+					if cid == nil || p.TypesInfo.ObjectOf(cid) != obj || obj == nil {
+						return
+					}
+					calls++
+					if !g2.lenAtLeast(g2.str(call.Args[k]), n, call, st) {
+						allOK = false
+					}
+				})
+			}
+		}
+	}
+	return calls > 0 && allOK
+}
+
 // guardOfIndex: why `a[i]` cannot fault, or "".
 func (g *guardCtx) guardOfIndex(x *ast.IndexExpr, stack []ast.Node, fd *ast.FuncDecl) string {
 	a := g.str(x.X)
@@ -403,12 +495,15 @@ func (g *guardCtx) guardOfIndex(x *ast.IndexExpr, stack []ast.Node, fd *ast.Func
 		}
 	}
 	for _, f := range g.knownAt(x, stack) {
-		if f.kind == "idxLT" && f.expr == a && f.idx == g.str(x.Index) {
+		if f.kind == "idxLT" && f.expr == a && f.idx == g.str(g.unconv(x.Index)) {
 			return "bounds-checked"
 		}
 	}
 	if c, ok := g.constInt(x.Index); ok && c >= 0 && g.lenAtLeast(a, c+1, x, stack) {
 		return "len-checked"
+	}
+	if c, ok := g.constInt(x.Index); ok && c >= 0 && g.callersLenAtLeast(x.X, c+1, stack) {
+		return "len-checked-by-callers"
 	}
 	return ""
 }
@@ -444,6 +539,9 @@ func (g *guardCtx) guardOfSlice(x *ast.SliceExpr, stack []ast.Node) string {
 	}
 	if g.lenAtLeast(a, need, x, stack) {
 		return "len-checked"
+	}
+	if g.callersLenAtLeast(x.X, need, stack) {
+		return "len-checked-by-callers"
 	}
 	return ""
 }
@@ -678,14 +776,10 @@ func (g *guardCtx) sameArrayLen(a, b ast.Expr) bool {
 // madeWithLenOf: `a` is a local identifier whose only assignment in the function is `a := make(T, len(<other>))`
 // (also with an equal capacity argument).
 func (g *guardCtx) madeWithLenOf(a ast.Expr, other string, fd *ast.FuncDecl) bool {
-	id, ok := unparen(a).(*ast.Ident)
-	if !ok || fd == nil || fd.Body == nil {
+	if fd == nil || fd.Body == nil {
 		return false
 	}
-	obj := g.info.ObjectOf(id)
-	if obj == nil {
-		return false
-	}
+	target := g.str(unparen(a))
 	assignments, good := 0, false
 	ast.Inspect(fd.Body, func(n ast.Node) bool {
 		as, ok := n.(*ast.AssignStmt)
@@ -693,8 +787,7 @@ func (g *guardCtx) madeWithLenOf(a ast.Expr, other string, fd *ast.FuncDecl) boo
 			return true
 		}
 		for i, l := range as.Lhs {
-			lid, ok := l.(*ast.Ident)
-			if !ok || g.info.ObjectOf(lid) != obj {
+			if g.str(unparen(l)) != target {
 				continue
 			}
 			assignments++
